@@ -450,6 +450,17 @@ func Mutants(base *Schema) []Mutant {
 				m := base.Clone()
 				*ds.get(m) = append(*ds.get(m), du(dd.Name, a.Name, badV))
 				add(m, "R10", dd.Name, "uncoercible-argument:"+ds.loc, "@"+dd.Name+"("+a.Name+": {zz:1}) on "+ds.at, both)
+				if a.Type.K == world.TNonNull {
+					// an explicit null for a non-null argument (a default, if any, does not apply to an explicit null)
+					m := base.Clone()
+					*ds.get(m) = append(*ds.get(m), du(dd.Name, a.Name, nil))
+					add(m, "R10", dd.Name, "null-for-non-null-argument:"+ds.loc, "@"+dd.Name+"("+a.Name+": null) on "+ds.at, both)
+					if a.Type.Of.K == world.TList && a.Type.Of.Of.K == world.TNonNull {
+						m := base.Clone()
+						*ds.get(m) = append(*ds.get(m), du(dd.Name, a.Name, []interface{}{"ok", nil}))
+						add(m, "R10", dd.Name, "null-element-for-non-null-argument:"+ds.loc, "@"+dd.Name+"("+a.Name+": [\"ok\", null]) on "+ds.at, both)
+					}
+				}
 			}
 		}
 	}
